@@ -459,7 +459,10 @@ LOADER_ASSUME = CORE_ASSUME + CTL_STUBS + [
     "asset = in-memory array with a reported length and an injected read/seek failure index",
     "page accessors replaced by 4-byte stand-in pages (see K-core::sna); refresh_memory_dependent_devices stubbed",
     "miniz_oxide inflate (compressed SZX pages), flate2 and delharc are third-party decoders, not verified: assumed to return Ok/Err within their documented limits"]
-SZX_H = ["szx_z80r", "szx_spcr", "szx_ay", "szx_keyb", "szx_amxm", "szx_crtr", "szx_ramp", "szx_unknown"]
+# szx_crtr and szx_ramp exist in kani/core/loaders.rs but are not registered: on the final tree they
+# did not finish within 45 minutes each (ramp peaked at 34 GB); both handlers are verified for every
+# block content by the Verus unit szx, and the size table that guards them by scan_szx_min_sizes
+SZX_H = ["szx_z80r", "szx_spcr", "szx_ay", "szx_keyb", "szx_amxm", "szx_unknown"]
 K_LOADERS = dict(name="K-core::loaders-sna", package="rustzx-core", features="full",
                  harnesses=["sna_header_48k", "sna_header_128k", "sna_rejects", "sna_faults_48k", "sna_faults_128k"], jobs=5, timeout=3000,
                  functions={"sna_header_48k": ["sna::load (header decode)", "Z80::set_im", "ZXColor::from_bits"], "sna_header_128k": ["sna::load (128K path)"],
@@ -473,11 +476,11 @@ K_LOADERS_C14 = dict(K_LOADERS, name="K-core::loaders-sna+banks",
                                     sna_rt128_fresh=["sna::save", "sna::load (128K bank placement, latch)"]),
                      assumptions=K_LOADERS["assumptions"] + ["round-trip harnesses: see K-core::sna (SP fixed, bank markers / stand-in pages)"])
 K_LOADERS_SZX = dict(name="K-core::loaders-szx", package="rustzx-core", features="full", tier="thorough",
-                 harnesses=SZX_H, jobs=4, timeout=7200,
+                 harnesses=SZX_H, jobs=3, timeout=7200,
                  bounded={h: "SZX file of one block; declared size / length enumerated in {0, min-1, min, 40, 2^31}; block content symbolic; stored pages; 4-byte stand-in pages" for h in SZX_H},
                  functions={"szx_z80r": ["szx::load", "szx::process_z80r_block"], "szx_spcr": ["szx::process_spcr_block"], "szx_ay": ["szx::process_ay_block", "ZXAyChip::set_regs"],
-                            "szx_keyb": ["szx::process_keyb_block"], "szx_amxm": ["szx::process_amxm_block"], "szx_crtr": ["szx::process_crtr_block"],
-                            "szx_ramp": ["szx::process_ramp_block (stored pages)"], "szx_unknown": ["szx::load (unknown block skipped)"]},
+                            "szx_keyb": ["szx::process_keyb_block"], "szx_amxm": ["szx::process_amxm_block"],
+                            "szx_unknown": ["szx::load (unknown block skipped)"]},
                  assumptions=LOADER_ASSUME)
 
 K_REFRESH = dict(name="K-core::screen", package="rustzx-core", features="full",
